@@ -35,16 +35,23 @@ PadLeftZeros(ds, w) == IF Len(ds) >= w THEN ds ELSE PadLeftZeros(<<48>> \o ds, w
 
 \* exact decimal form of a dyadic rational with a small denominator (<= 2^9):
 \* n / 2^k = n * 5^k / 10^k.  This is also the shortest form that reads back.
+\* smallest k <= 9 with d | 10^k, or -1: the number of fraction digits of the finite decimal n/d
+RECURSIVE FracDigits(_, _)
+FracDigits(d, k) == IF k > 9 THEN 0 - 1 ELSE IF (PowI(10, k) % d) = 0 THEN k ELSE FracDigits(d, k + 1)
+\* The decimal form of a number that is a finite decimal with at most 15 significant digits is the
+\* shortest form that reads back to its double, which is what the port prints (for magnitudes between
+\* 1e-6 and 1e21, where no exponent is used).
 NumCps(x) ==
     IF IsZeroU(x) THEN [ok |-> FALSE, s |-> <<>>]
     ELSE IF x.d = 1 THEN [ok |-> TRUE, s |-> IntCps(x.n)]
-    ELSE IF ~Dyadic(x) \/ x.d > 512 \/ ~MulFits(x.n, PowI(5, Pow2Exp(x.d))) THEN [ok |-> FALSE, s |-> <<>>]
-    ELSE LET k == Pow2Exp(x.d)
-             a == AbsI(x.n) * PowI(5, k)
-             ip == a \div PowI(10, k)
-             fp == a % PowI(10, k)
-             fds == StripTrailingZeros(PadLeftZeros(NatCps(fp), k))
-         IN  [ok |-> TRUE, s |-> (IF x.n < 0 THEN <<45>> ELSE <<>>) \o NatCps(ip) \o <<46>> \o fds]
+    ELSE LET k == FracDigits(x.d, 1) IN
+         IF k < 0 \/ ~MulFits(x.n, PowI(10, k) \div x.d) THEN [ok |-> FALSE, s |-> <<>>]
+         ELSE LET a == AbsI(x.n) * (PowI(10, k) \div x.d)
+                  ip == a \div PowI(10, k)
+                  fp == a % PowI(10, k)
+                  fds == StripTrailingZeros(PadLeftZeros(NatCps(fp), k))
+              IN  IF ip = 0 /\ k > 6 /\ fp < PowI(10, k - 6) THEN [ok |-> FALSE, s |-> <<>>]          \* below 1e-6: exponent form
+                  ELSE [ok |-> TRUE, s |-> (IF x.n < 0 THEN <<45>> ELSE <<>>) \o NatCps(ip) \o <<46>> \o fds]
 
 ---------------------------------------------------------------------------
 (* JSON text of a value, as encoding/json prints it (HTML-safe escapes)     *)
